@@ -149,7 +149,16 @@ def run_scripted(pre, seq, rng):
 
 
 # ------------------------------------------------------------------------------ H3: threads
-def scenario_threads(s, seed, remote):
+LINE_FUNCS = ["publish_signal", "_deliver_local", "_handle_subscription_request", "_handle_subscription_reply",
+              "handle_object_removed"]
+
+
+def line_yields(P):
+    """Every source line of the named SignalManager methods becomes a scheduling point."""
+    dsched.enable_line_yields([getattr(P.SignalManager, f) for f in LINE_FUNCS])
+
+
+def scenario_threads(s, seed, remote, lines=False):
     """Real QMI_Context(s); publisher threads x subscriber threads; returns the call log and queues."""
     import random
     import threading as real_threading
@@ -212,6 +221,8 @@ def scenario_threads(s, seed, remote):
         for _ in range(rng.randint(1, 4)):
             plan.append((rng.choice(["sub", "sub", "unsub"]), rng.choice(["s", "s", "s1"])))
         threads.append(real_threading.Thread(target=subscriber, args=(r, plan), name="sub%d" % r))
+    if lines:
+        line_yields(P)
     s.recording = True
     for t in threads:
         t.start()
@@ -433,17 +444,17 @@ def run(ck):
     sims = run_sims(ck, "c07")
     check_sims(ck, sims, "C07", ("c07",))
     # H3: threads
-    nsched = 160 if ck.tier == "quick" else 4000
+    nsched = 400 if ck.tier == "quick" else 8000
     jobs = []
     for i in range(nsched):
         remote = (i % 4 == 3)
-        jobs.append((scenario_threads, (ck.rng.randint(0, 10 ** 6), remote),
+        jobs.append((scenario_threads, (ck.rng.randint(0, 10 ** 6), remote, i % 2 == 0),
                      dict(strategy="random" if i % 3 else "pct", seed=i)))
     results = dsched.run_forked(jobs, nproc=16, wall_timeout=60.0)
     for (fn, args, kw), res in zip(jobs, results):
         ck.note_case(("threads", args, kw["seed"], tuple(res.get("choices") or ())[:50]), True)
-        ck.count("threads:%s:%s" % ("remote" if args[1] else "local", res["status"]))
-        rp = {"kind": "threads", "seed": args[0], "remote": args[1], "sched": kw, "schedule": res.get("choices")}
+        ck.count("threads:%s%s:%s" % ("remote" if args[1] else "local", "+lines" if args[2] else "", res["status"]))
+        rp = {"kind": "threads", "seed": args[0], "remote": args[1], "lines": args[2], "sched": kw, "schedule": res.get("choices")}
         if res["status"] != "ok" or not (res.get("obs") or {}).get("done"):
             ck.report("oracle:c07:threads:%s" % res["status"],
                       "thread-level run did not finish (%s): %s" % (res["status"], str(res.get("info") or res.get("trace"))[:400]), rp)
@@ -462,7 +473,7 @@ def replay(rep):
     c = rep["case"]
     if c.get("kind") == "threads":
         import qmi.core.context, qmi.core.rpc, qmi.core.pubsub, qmi.core.messaging, qmi.core.task  # noqa
-        res = dsched.run_forked([(scenario_threads, (c["seed"], c["remote"]),
+        res = dsched.run_forked([(scenario_threads, (c["seed"], c["remote"], bool(c.get("lines"))),
                                   dict(strategy="replay", schedule=list(c["schedule"] or [])))], nproc=1, wall_timeout=60.0)[0]
         print("status:", res["status"])
         if res["status"] != "ok":
